@@ -7,6 +7,7 @@ pairs of timebases.  A semantic edit of the source breaks this theorem.
 import CtrlVerif.Model.Dt
 import CtrlVerif.Model.PyDt
 import CtrlVerif.Generated.CommonTimebase
+import CtrlVerif.Generated.ProcessDtKeyword
 import Mathlib.Tactic.NormNum
 
 namespace CtrlVerif.C05Gen
@@ -39,5 +40,31 @@ example : Generated.commonTimebase .dtrue (.disc (1/10)) = .ok (.disc (1/10)) :=
   norm_num [Generated.commonTimebase, PyDt.isNone, PyDt.isTrue, PyDt.gtZero, PyDt.num]
 example : Generated.commonTimebase .cont (.disc (1/10)) = .error .timebase := by
   norm_num [Generated.commonTimebase, PyDt.isNone, PyDt.isTrue, PyDt.isclose, PyDt.num, close]
+
+/-- `_process_dt_keyword` as written in the source, followed by the reading of an accepted value
+as a timebase, is the model `processDt` (the one `processDt_*`, `ctor_*`, `factory_given` and the
+whole constructor table of `Props/C05.lean` are about) … -/
+theorem generated_processDt_eq (kw dflt : Option DtArg) (static : Bool) (cfg : DtArg) :
+    (Generated.processDtKeyword kw dflt static cfg).bind DtArg.check
+      = processDt kw dflt static cfg := by
+  rcases kw with _ | (_ | _ | a | _) <;> rcases dflt with _ | (_ | _ | b | _) <;>
+    rcases cfg with (_ | _ | c | _) <;> cases static <;>
+    (try by_cases ha : a < 0) <;> (try by_cases hb : b < 0) <;> (try by_cases hc : c < 0) <;>
+    simp [Generated.processDtKeyword, processDt, PyDtArg.pop, PyDtArg.isNone, PyDtArg.isNumber,
+      PyDtArg.ltZero, DtArg.check, bind, Except.bind, pure, Except.pure, throw, throwThe,
+      MonadExceptOf.throw, *]
+
+/-- … and it accepts exactly the values the model accepts (so the validation is neither weaker
+nor stronger than the model's). -/
+theorem generated_processDt_accepts (kw dflt : Option DtArg) (static : Bool) (cfg : DtArg) :
+    (Generated.processDtKeyword kw dflt static cfg).isOk
+      = (processDt kw dflt static cfg).isOk := by
+  rcases kw with _ | (_ | _ | a | _) <;> rcases dflt with _ | (_ | _ | b | _) <;>
+    rcases cfg with (_ | _ | c | _) <;> cases static <;>
+    (try by_cases ha : a < 0) <;> (try by_cases hb : b < 0) <;> (try by_cases hc : c < 0) <;>
+    (try by_cases ha0 : a = 0) <;> (try by_cases hb0 : b = 0) <;> (try by_cases hc0 : c = 0) <;>
+    simp [Generated.processDtKeyword, processDt, PyDtArg.pop, PyDtArg.isNone, PyDtArg.isNumber,
+      PyDtArg.ltZero, DtArg.check, bind, Except.bind, pure, Except.pure, throw, throwThe,
+      MonadExceptOf.throw, Except.isOk, Except.toBool, *]
 
 end CtrlVerif.C05Gen
